@@ -31,7 +31,13 @@ ASSUMPTIONS = [
     "alphabet: ASCII digits, blank and tab as padding, printable ASCII and selected non-ASCII letters in "
     "payloads; other Unicode white space / digits (accepted by the shipped \\s, \\d) are not generated",
     "E payloads with an inner tab and the empty word are the unspecified zone: not asserted either way",
+    "a lane index written with leading zeros ('N 07 0') is unspecified (acceptance not asserted either way); "
+    "the star-power kind is the literal '2' of the property, so 'S 02 ...' is a line of another shape",
 ]
+
+
+import re as _re
+_ZERO_PREFIXED_LANE = _re.compile(r"^[ \t]*[0-9]+ = N 0+[0-7] [0-9]+[ \t]*$")
 
 
 def _accepts(kind_cls, line):
@@ -53,7 +59,11 @@ def check_string(ctx: Ctx, line: str, count: bool = True) -> tuple[bool, bool]:
         ctx.fail("note-recogniser-error", f"N recogniser on {line!r} raised {type(e).__name__}: {e}", line)
         d = None
     if ref is None:
-        if d is not None:
+        if d is not None and _ZERO_PREFIXED_LANE.match(line):
+            # '<0..7>' written with leading zeros ('N 07 0'): the property names the lanes as numbers, so
+            # whether such a spelling is a lane line is not asserted either way (the literal 'S 2' is)
+            ctx.classes["unspecified_N_zero_prefixed_index"] += 1
+        elif d is not None:
             ctx.fail("note-overaccepts", f"{line!r} is not an N line but was decoded as {d!r}", line)
     else:
         member = True
@@ -111,7 +121,7 @@ N_SLOTS = [
     [" = ", "=", " =", "  = "],                              # separator
     ["N", "S", "E", "n"],                                    # kind letter
     [" ", "", "  "],
-    ["0", "2", "4", "5", "6", "7", "8", "64", "-1", ""],     # index
+    ["0", "2", "4", "5", "6", "7", "8", "64", "-1", "", "02", "002", "07"],     # index
     [" ", "", "  "],
     ["0", "96", "007", "", "-5", "1.0"],                     # length
     ["", " ", "\t", "x"],                                    # right pad
@@ -187,6 +197,9 @@ word_chars = st.characters(min_codepoint=33, max_codepoint=0x24F,
                            blacklist_characters=G.LINE_BREAKS + " \t\xa0\x1f",
                            blacklist_categories=("Cc", "Cs", "Zs", "Zl", "Zp"))
 _words = st.one_of(st.sampled_from([w for w in G.WRAPPED if " " not in w and "\t" not in w]),
+                   # every one-character word (some are markers in other tools' dialects: * T O H ...)
+                   st.sampled_from([chr(c) for c in range(33, 127)]),
+                   st.sampled_from(G.KNOWN_TRACK_WORDS),
                    st.sampled_from(["solo", "soloend", "a=b", '"q"', '"solo"', '"phrase_start"', '"lyric"', "N", "S",
                                     "2", "0=N", "[x]", "{", "}"]),
                    st.text(alphabet=word_chars, min_size=1, max_size=20),
@@ -290,7 +303,7 @@ def check_mutation(ctx: Ctx, line) -> None:
 @st.composite
 def _sections(draw, ctx):
     n = draw(st.integers(1, ctx.pick(12, 40)))
-    tick = draw(st.integers(0, 50))
+    tick = draw(st.one_of(st.integers(0, 50), st.integers(0, 50), st.integers(0, 50), st.sampled_from(G.BIG_OFFSETS_32)))
     lines = []   # [text, kind, payload]
     for g in range(n):
         if g:
@@ -317,7 +330,14 @@ def _sections(draw, ctx):
             lines.append([f"{lp}{tz}{tick} = E {w}{rp}", "E", [tick, w]])
             for _ in range(draw(st.sampled_from([0, 0, 0, 0, 1, 2]))):   # repeated verbatim
                 lines.append(list(lines[-1]))
-        else:
+        if what in ("N", "S") and draw(st.integers(0, 3)) == 0:
+            # another kind of line on the very same tick (N lines, then S, then E: Moonscraper's order)
+            if what == "N" and draw(st.booleans()):
+                ln = draw(st.integers(0, 500))
+                lines.append([f"{lp}{tick} = S 2 {ln}{rp}", "S", [tick, ln]])
+            w = draw(_words)
+            lines.append([f"{lp}{tick} = E {w}{rp}", "E", [tick, w]])
+        if what not in ("N", "S", "E"):
             bad = draw(st.sampled_from([
                 f"{tick} = S 64 10", f"{tick} = N 8 0", f"{tick} = E two words", f"{tick} = S 0 5",
                 f"{tick} = N 0", f"{tick} = S 2", f"{tick} = N 0 0 0", f"{tick}= N 0 0",
